@@ -155,6 +155,11 @@ func trustedResourceURLFormat(format string, args map[string]string) (TrustedRes
 		// segments or URL components.
 		return safehtmlutil.QueryEscapeURL(argVal)
 	})
+	if err == nil && !safehtmlutil.URLContainsDoubleDotSegment(trustedResourceURLFormatMarkerPattern.ReplaceAllString(format, "")) && safehtmlutil.URLContainsDoubleDotSegment(ret) {
+		// Arguments that are individually free of ".." can still form one together with
+		// each other or with adjacent '.' runes in the format string.
+		err = fmt.Errorf(`arguments must not introduce ".." into the format string %q`, format)
+	}
 	return TrustedResourceURL{ret}, err
 }
 
@@ -191,5 +196,9 @@ func TrustedResourceURLAppend(t TrustedResourceURL, s string) (TrustedResourceUR
 	if !safehtmlutil.IsSafeTrustedResourceURLPrefix(t.str) {
 		return TrustedResourceURL{}, fmt.Errorf("cannot append to TrustedResourceURL %q because it has an unsafe prefix", t)
 	}
-	return TrustedResourceURL{t.str + safehtmlutil.QueryEscapeURL(s)}, nil
+	ret := t.str + safehtmlutil.QueryEscapeURL(s)
+	if !safehtmlutil.URLContainsDoubleDotSegment(t.str) && safehtmlutil.URLContainsDoubleDotSegment(ret) {
+		return TrustedResourceURL{}, fmt.Errorf(`cannot append %q to TrustedResourceURL %q: ".." is disallowed`, s, t)
+	}
+	return TrustedResourceURL{ret}, nil
 }
